@@ -8,6 +8,8 @@ import vf
 CORPUS = os.path.join(vf.HARNESS, "typecorpus")
 TYPE_ERRORS = {"E0277", "E0308", "E0271", "E0369", "E0599", "E0282", "E0283", "E0107", "E0061", "E0631", "E0605", "E0614", "E0600"}
 
+MONO_OPS = {"TransposeRaw"}
+
 BASIS = {"Model": "re::render::Model", "World": "re::render::World", "Unit": "()"}
 
 
@@ -25,6 +27,9 @@ def ty(t):
         return "re::math::mat::Mat3x3<re::math::mat::RealToReal<2, %s, %s>>" % (BASIS[t[1]], BASIS[t[2]])
     if k == "MatP":
         return "re::math::mat::Mat4x4<re::math::mat::RealToProj<%s>>" % BASIS[t[1]]
+    if k == "MatRaw":
+        return ("re::math::mat::Matrix<[[f32; %s]; %s], re::math::mat::RealToReal<%s, re::render::Model, re::render::World>>"
+                % (t[1], t[1], t[2]))
     if k == "Angle":
         return "re::math::angle::Angle"
     if k == "F32":
@@ -42,7 +47,8 @@ EXPR = {
     "Apply": "a.apply(&b)", "ApplyPt": "a.apply_pt(&b)", "Compose": "a.compose(&b)", "Then": "a.then(&b)",
     "Inverse": "a.inverse()", "Transpose": "a.transpose()", "Determinant": "a.determinant()",
     "RotateX": "re::math::mat::rotate_x(a)", "Sin": "re::math::angle::Angle::sin(a)",
-    "PolarAz": "re::math::angle::polar(1.0, a)", "MulScalar": "a * b",
+    "PolarAz": "re::math::angle::polar(1.0, a)", "MulScalar": "a * b", "DivScalar": "a / b", "Rem": "a % b",
+    "TransposeRaw": "a.transpose()",
 }
 # programs with a third type: two-step, or result bound to an annotated type
 EXPR3 = {
@@ -93,9 +99,9 @@ def write_module(path, progs):
     return spans
 
 
-def cargo_check(feature):
+def cargo_check(feature, build=False):
     env = dict(os.environ, CARGO_NET_OFFLINE="true")
-    p = subprocess.run(["cargo", "check", "--offline", "--lib", "--features", feature, "--message-format=json"],
+    p = subprocess.run(["cargo", "build" if build else "check", "--offline", "--lib", "--features", feature, "--message-format=json"],
                        cwd=CORPUS, env=env, stdout=subprocess.PIPE, stderr=subprocess.PIPE, text=True)
     errs = []
     for ln in p.stdout.splitlines():
@@ -131,15 +137,32 @@ def run(tier):
     if len(progs) < 100:
         raise vf.ToolError("MC_Types exported only %d programs" % len(progs))
     numbered = list(enumerate(progs))
-    ok = [(i, p) for i, p in numbered if p["verdict"] == "accept"]
-    bad = [(i, p) for i, p in numbered if p["verdict"] == "reject"]
+    # programs whose rejection only shows when the function is instantiated are built one by one
+    mono = [(i, p) for i, p in numbered if p["op"] in MONO_OPS]
+    ok = [(i, p) for i, p in numbered if p["verdict"] == "accept" and p["op"] not in MONO_OPS]
+    bad = [(i, p) for i, p in numbered if p["verdict"] == "reject" and p["op"] not in MONO_OPS]
+    if len(mono) > 8:
+        raise vf.ToolError("more mono programs than features in typecorpus/Cargo.toml")
     os.makedirs(os.path.join(CORPUS, "src"), exist_ok=True)
     spans_ok = write_module(os.path.join(CORPUS, "src", "ok.rs"), ok)
     spans_bad = write_module(os.path.join(CORPUS, "src", "bad.rs"), bad)
     with open(os.path.join(CORPUS, "src", "lib.rs"), "w") as f:
         f.write("// generated by py/c10.py from the programs exported by MC_Types\n"
                 "#[cfg(feature = \"ok\")]\npub mod ok;\n#[cfg(feature = \"bad\")]\npub mod bad;\n")
+        for j in range(len(mono)):
+            f.write("#[cfg(feature = \"mono%d\")]\npub mod mono%d;\n" % (j, j))
     observed = {}
+    for j, (i, p) in enumerate(mono):
+        write_module(os.path.join(CORPUS, "src", "mono%d.rs" % j), [(i, p)])
+        rc, errs, stderr = cargo_check("mono%d" % j, build=True)
+        codes = {e["code"] for e in errs}
+        if rc != 0 and not errs:
+            raise vf.ToolError("cargo build failed without diagnostics: %s" % stderr)
+        if errs and not codes <= (TYPE_ERRORS | {"E0080"}):
+            raise vf.ToolError("bad template (not a type / const-evaluation error) in mono program p%d: %s" % (i, errs[:2]))
+        observed[i] = "reject" if errs else "accept"
+    vf.log("[rustc] %d programs built one by one (rejection at instantiation time): %d rejected" % (
+        len(mono), sum(1 for i, _ in mono if observed[i] == "reject")))
     for feature, spans, group in (("ok", spans_ok, ok), ("bad", spans_bad, bad)):
         rc, errs, stderr = cargo_check(feature)
         if rc != 0 and not errs:
